@@ -80,7 +80,8 @@ def gen(seed, run, tier='quick'):
         rr = [rng.randrange(1 << 16) for _ in range(12)]
         pos = rng.randrange(len(ops) // 2, len(ops) + 1)
         ops[pos:pos] = [['scn'] + rr for _ in range(9)]
-    return {'cfg': {'variant': variant}, 'ops': ops}
+    return {'cfg': {'variant': variant,
+                    'rounding': rng.choice(ROUNDINGS)}, 'ops': ops}
 
 
 def shrink_args(h):
@@ -636,6 +637,14 @@ def _observe(env: Env16, symbols, typenames, pairs=(), final=True):
     from quantity.money import Money, ExchangeRate
     obs = {}
     live = []
+    try:
+        import decimalfp
+        obs['global:rounding_mode'] = [
+            str(decimalfp.get_dflt_rounding_mode()),
+                                str(decimalfp.Decimal('0.125', 2)),
+                                str(decimalfp.Decimal('-2.5', 0))]
+    except Exception as e:      # noqa
+        obs['global:rounding_mode'] = 'exc:' + type(e).__name__
 
     def tkey(cls):
         return type_key(env, cls)
@@ -712,8 +721,23 @@ def _observe(env: Env16, symbols, typenames, pairs=(), final=True):
     return obs
 
 
+ROUNDINGS = ['ROUND_HALF_EVEN', 'ROUND_HALF_UP', 'ROUND_HALF_DOWN',
+             'ROUND_DOWN', 'ROUND_UP', 'ROUND_CEILING', 'ROUND_FLOOR',
+             'ROUND_05UP']
+
+
+def set_rounding(name):
+    """The process-wide default rounding mode of decimalfp is part of the
+    state a user sees (every quantized amount is rounded with it): a swarm
+    knob per run, and observed."""
+    if name:
+        import decimalfp
+        decimalfp.set_dflt_rounding_mode(getattr(decimalfp.ROUNDING, name))
+
+
 def run_a1(h):
     """World A1: resolve intents, find out what the library rejects."""
+    set_rounding(h['cfg'].get('rounding'))
     st = State()
     env = Env16()
     if h['cfg']['variant'] == 'predefined':
@@ -751,7 +775,8 @@ def run_a1(h):
 
 def run_concrete(arg):
     """Worlds A2 and B: execute concrete actions, observe after each."""
-    actions, symbols, typenames, variant, pairs = arg
+    actions, symbols, typenames, variant, pairs, rmode = arg
+    set_rounding(rmode)
     env = Env16()
     if variant == 'predefined':
         decl.seed_catalogue(decl.RefDir(), env)
@@ -797,10 +822,13 @@ def judge(h):
             if p not in pairs:
                 pairs.append(p)
     pairs = pairs[:12]
+    rmode = h['cfg'].get('rounding')
     obs_a = core.run_in_child(run_concrete,
-                              (plain, symbols, typenames, variant, pairs))
+                              (plain, symbols, typenames, variant, pairs,
+                               rmode))
     obs_b = core.run_in_child(run_concrete,
-                              (kept, symbols, typenames, variant, pairs))
+                              (kept, symbols, typenames, variant, pairs,
+                               rmode))
     faults, probes, known = {}, {}, {}
     violations = []
 
@@ -808,77 +836,110 @@ def judge(h):
         d[k] = d.get(k, 0) + n
 
     log = []
-    j = 0                       # index into obs_b (0 = initial)
-    rejected_seen = 0
+
+    def compare(acts, obs_x, obs_y, is_deleted, pair, count):
+        """World X runs `acts`, world Y runs them without the steps for
+        which is_deleted() holds; after every step both must look alike."""
+        j = 0                   # index into obs_y (0 = initial)
+        rejected_seen = 0
+        for i, act in enumerate(acts):
+            ox = obs_x[i + 1]
+            if is_deleted(act):
+                rejected_seen += 1
+                if count:
+                    bump(faults, 'rejected:' + str(act.get('bad') or
+                                                   'followed:' + act['a']))
+                    if act.get('bad_after_valid'):
+                        bump(probes, 'rejected_update_after_valid_specs')
+                else:
+                    bump(faults, 'rejected:refused_valid:' + act['a'])
+            else:
+                j += 1
+                if count:
+                    if act['raised']:
+                        bump(probes, 'valid_step_refused_in_A')
+                    else:
+                        if act.get('reuse'):
+                            bump(probes, 'valid_reuse_of_rejected_' +
+                                 act['reuse'])
+                        if rejected_seen:
+                            bump(probes, 'accepted_step_after_a_rejection')
+            oy = obs_y[j]
+            if count:
+                log.append([i, act['a'], ox[0]])
+            if violations:
+                continue
+            show = {kk: vv for kk, vv in act.items()
+                    if kk not in ('raised', 'outcome')}
+            # outcome of the step itself (kept steps only), and for an
+            # operation its result
+            if not is_deleted(act) and oy[0] == ox[0] and len(ox) > 2 and \
+                    ox[2] != oy[2]:
+                facts = {'class': 'later_operation_result', 'action': show,
+                         'with_rejected_steps': ox[2], 'without': oy[2],
+                         'worlds': pair}
+                fid = kf.match(PROP, 'twin', facts)
+                if fid:
+                    bump(known, fid)
+                else:
+                    violations.append(dict(facts, oracle='twin', step=i))
+                    continue
+            if not is_deleted(act) and oy[0] != ox[0]:
+                facts = {'class': 'later_step_outcome', 'action': show,
+                         'with_rejected_steps': ox[0], 'without': oy[0],
+                         'worlds': pair}
+                fid = kf.match(PROP, 'twin', facts)
+                if fid:
+                    bump(known, fid)
+                else:
+                    violations.append(dict(facts, oracle='twin', step=i))
+                    continue
+            diff = [k for k in ox[1] if ox[1][k] != oy[1].get(k)]
+            if diff:
+                k = diff[0]
+                cls = k.split(':')[0] if ':' in k else 'operation'
+                culprit = next((a for a in reversed(acts[:i + 1])
+                                if is_deleted(a)), None)
+                facts = {'class': 'trace_' + cls, 'key': k,
+                         'with_rejected_steps': ox[1][k],
+                         'without': oy[1].get(k),
+                         'n_differences': len(diff), 'worlds': pair,
+                         'last_rejected': None if culprit is None else
+                         {kk: vv for kk, vv in culprit.items()
+                          if kk in ('a', 'bad', 'dup_dim', 'name', 'sym',
+                                    'ref_sym', 'code', 'outcome')}}
+                fid = kf.match(PROP, 'twin', facts)
+                if fid:
+                    bump(known, fid)
+                else:
+                    violations.append(dict(facts, oracle='twin', step=i))
+
     for i, act in enumerate(actions):
-        oa = obs_a[i + 1]
-        if (oa[0] != 'ok') != act['raised']:
+        if (obs_a[i + 1][0] != 'ok') != act['raised']:
             raise core.HarnessError(
-                f"world A2 diverged from A1 at step {i}: {oa[0]}")
-        if deleted(act):
-            rejected_seen += 1
-            bump(faults, 'rejected:' + str(act.get('bad') or
-                                           'followed:' + act['a']))
-            if act.get('bad_after_valid'):
-                bump(probes, 'rejected_update_after_valid_specs')
-        else:
-            j += 1
-            if act['raised']:
-                bump(probes, 'valid_step_refused_in_A')
-            else:
-                if act.get('reuse'):
-                    bump(probes, 'valid_reuse_of_rejected_' + act['reuse'])
-                if rejected_seen:
-                    bump(probes, 'accepted_step_after_a_rejection')
-        ob = obs_b[j]
-        log.append([i, act['a'], oa[0]])
-        if violations:
-            continue
-        # outcome of the step itself (kept steps only), and for an
-        # operation its result
-        if not deleted(act) and ob[0] == oa[0] and len(oa) > 2 and \
-                oa[2] != ob[2]:
-            facts = {'class': 'later_operation_result', 'action': act,
-                     'with_rejected_steps': oa[2], 'without': ob[2]}
-            fid = kf.match(PROP, 'twin', facts)
-            if fid:
-                bump(known, fid)
-            else:
-                violations.append(dict(facts, oracle='twin', step=i))
-                continue
-        if not deleted(act) and ob[0] != oa[0]:
-            facts = {'class': 'later_step_outcome', 'action': act,
-                     'with_rejected_steps': oa[0], 'without': ob[0]}
-            fid = kf.match(PROP, 'twin', facts)
-            if fid:
-                bump(known, fid)
-            else:
-                violations.append(dict(facts, oracle='twin', step=i))
-                continue
-        diff = [k for k in oa[1] if oa[1][k] != ob[1].get(k)]
-        if diff:
-            k = diff[0]
-            cls = k.split(':')[0] if ':' in k else 'operation'
-            culprit = next((a for a in reversed(actions[:i + 1])
-                            if deleted(a)), None)
-            facts = {'class': 'trace_' + cls, 'key': k,
-                     'with_rejected_steps': oa[1][k],
-                     'without': ob[1].get(k),
-                     'n_differences': len(diff),
-                     'last_rejected': None if culprit is None else
-                     {kk: vv for kk, vv in culprit.items()
-                      if kk in ('a', 'bad', 'dup_dim', 'name', 'sym',
-                                'ref_sym', 'code', 'outcome')}}
-            fid = kf.match(PROP, 'twin', facts)
-            if fid:
-                bump(known, fid)
-            else:
-                violations.append(dict(facts, oracle='twin', step=i))
+                f"world A2 diverged from A1 at step {i}: {obs_a[i + 1][0]}")
+    compare(actions, obs_a, obs_b, deleted, 'A/B', True)
+    # world C: declarations the generator held for valid, that stayed in B
+    # and that the library refused there as well, are rejected declarations
+    # too: without them (world C) everything must look the same
+    kept_full = [dict(a, raised=obs_b[jj + 1][0] != 'ok')
+                 for jj, a in enumerate(kept)]
+
+    def refused(a):
+        return a['raised'] and a['a'] not in ('operate', 'evict')
+    n_worlds = 3
+    if not violations and any(refused(a) for a in kept_full):
+        kept_c = [a for a, full in zip(kept, kept_full) if not refused(full)]
+        obs_c = core.run_in_child(run_concrete,
+                                  (kept_c, symbols, typenames, variant,
+                                   pairs, h['cfg'].get('rounding')))
+        n_worlds = 4
+        compare(kept_full, obs_b, obs_c, refused, 'B/C', False)
     n_rej = sum(1 for a in actions if deleted(a))
     return {'digest': core.digest([log, core.digest(obs_a),
                                    core.digest(obs_b)]),
             'violations': violations, 'known': known, 'faults': faults,
-            'probes': probes, 'ops': len(actions), 'worlds': 3,
+            'probes': probes, 'ops': len(actions), 'worlds': n_worlds,
             'hist_digest': core.digest([h['cfg'], h['ops']]),
             'nontrivial': bool(n_rej >= 1 and probes.get(
                 'accepted_step_after_a_rejection', 0) >= 1),
